@@ -17,10 +17,12 @@ def run(repo, chk):
     chk.note_undecided('agreement of the two decoders on every tensor (equality of two array programs)', 'the unusable 2-D branch of greedy_decode_ctc')
     R = Rules(repo, chk)
     refcheck.run_all(R, repo, chk, 'RECUR', 'greedy_ref.py', WHAT)
+    refcheck.run_all(R, repo, chk, 'RECUR', 'nets_ref.py', {'py_init': 'the character table handed to the greedy decoder ends with the blank'}, only=('py_init',))
+    refcheck.run_all(R, repo, chk, 'RECUR', 'decsetup_ref.py', {'greedy_init': 'blank index = position of the blank symbol'}, only=('greedy_init', 'assert_letters_valid'))
     refcheck.run_all(R, repo, chk, 'RECUR', 'ocr_ref.py', {'py_run_ocr': 'the engine decodes greedily exactly the network output it returns (all frames)'}, only=('py_run_ocr',))
     R.run('ORDER', order, repo, chk)
     R.run('OFFSET', offset, repo, Soft(chk))
-    chk.expect('RECUR', 3)
+    chk.expect('RECUR', 6)
     chk.expect('ORDER', 3)
     chk.expect('OFFSET', 7)
 
